@@ -21,6 +21,7 @@ import math
 import random
 import re
 
+import c10_cover
 import common
 import impl
 from common import cstr, clist, cfloat, cbool, copt, cpair, cn, cz
@@ -28,6 +29,9 @@ from common import cstr, clist, cfloat, cbool, copt, cpair, cn, cz
 THEOREMS = [
     'C10_material_card_recognised', 'C10_material_card_shape',
     'C10_other_cards_ignored', 'C10_material_cards_recognised',
+    'C10_material_cards_duplicates', 'C10_material_cards_recognised_linked',
+    'C10_one_block_per_material_density_linked',
+    'C10_fraction_spelling_copied_linked',
     'C10_element_table', 'C10_atomic_number_range',
     'C10_zaid_split', 'C10_card_converted', 'C10_mixed_signs_rejected',
     'C10_repeated_nuclide', 'C10_unused_card_still_checked',
@@ -42,13 +46,17 @@ THEOREMS = [
 ]
 TRUSTED = [
     'hand-written model coq/C10/Model.v (tied by execution only)',
-    'normalize_float (C09\'s), float() and the %.15e rendering are parameters '
-    'of the model: the harness passes the implementation\'s own '
-    'normalize_float(s), float(normalize_float(s)) and the written amount '
-    'strings; computed concentrations are compared at 1e-14 relative',
+    'float() and the %.15e rendering are parameters of the model: the '
+    'harness passes the implementation\'s own float(normalize_float(s)) and '
+    'the written amount strings; computed concentrations are compared at '
+    '1e-14 relative.  normalize_float is a parameter too; the _linked '
+    'theorems instantiate it with C09\'s model (tied in C09), the tie passes '
+    'the implementation\'s own strings',
     'math.fsum vs left-to-right float sum: absorbed by the tolerance',
-    'Card.content() / get_cards of MIP (comment stripping, continuation '
-    'lines): the model starts from the one-line content of each data card',
+    'Card.content() / get_cards of MIP: the model starts from the one-line '
+    'content of each data card; C10_material_cards_recognised_linked and '
+    'C10_one_block_per_material_density_linked start from the physical lines '
+    'through C14\'s model of both (tied in C14)',
     'the final cell dictionary (importance, universe, fillid, materialID, '
     'density of every cell after LIKE/lattice/FILL development) is captured '
     'from the run, not modelled here (C09, C12, C15)',
@@ -56,8 +64,11 @@ TRUSTED = [
     'replacing TatSu',
 ]
 ASSUMPTIONS = [
-    'ZAIDs and material numbers are decimal digits (no sign, blanks or '
-    'underscores): the model\'s int() is narrower than Python\'s',
+    'theorems about ZAIDs speak of ZAIDs made of decimal digits; outside '
+    'that guard the model follows Python\'s int() on ASCII tokens (sign, '
+    'single underscores), tied by the pyint stream and C10_python_int; the '
+    'number of a material card is matched by [0-9]* so digits are all there '
+    'is',
     'well-formed cards: fraction spellings do not start with a blank or a '
     'second minus sign; suffixes and ZAIDs contain no "="',
     'ASCII decks',
@@ -145,7 +156,7 @@ def gen_card(rng, valid=True, neg=None):
         items.append({'key': rng.choice(KEYWORDS)})
     if not valid:
         fault = rng.choice(['mixed', 'mixed', 'badz', 'short', 'nofrac',
-                            'alpha', 'z0', 'keymid', 'empty'])
+                            'alpha', 'z0', 'keymid', 'empty', 'pyint'])
         nucs = [it for it in items if 'key' not in it]
         victim = rng.choice(nucs)
         if fault == 'mixed':
@@ -163,6 +174,12 @@ def gen_card(rng, valid=True, neg=None):
             victim['raw'] = rng.choice(['92', '1', '235', '001'])
         elif fault == 'alpha':
             victim['raw'] = rng.choice(['u235', '92x35', '9a235', '92235c'])
+        elif fault == 'pyint':
+            # spellings Python's int() reads or refuses in its own way
+            victim['raw'] = rng.choice(
+                ['+92235', '9_2235', '92_235', '9__2235', '-92235', '1-35',
+                 '1+00', '+1001', '0_1001', '1_001', '_1001', '1001_',
+                 '+-1001', '1+01', '8_016', '+0001001', '-0001', '1e03'])
         elif fault == 'nofrac':
             items = [it for it in items if 'key' not in it]
             items[-1]['drop_frac'] = True
@@ -861,8 +878,8 @@ def witnesses(res):
 def run(res, tier, seed, proofs_ok):
     rng = random.Random(seed)
     quick = tier == 'quick'
-    n_valid = 250 if quick else 2500
-    n_bad = 200 if quick else 1500
+    n_valid = 250 if quick else 4000
+    n_bad = 200 if quick else 2500
     res.rule = ('abstract material cards (1-30 entries, Z in 1..118, mass '
                 'numbers incl. 000, leading zeros, library suffixes, keyword '
                 'entries in every position, repeated nuclides, 25 fraction '
@@ -877,9 +894,25 @@ def run(res, tier, seed, proofs_ok):
                 'a deck; distinct by token list / deck text')
     witnesses(res)
     run_symbols(res)
-    run_split(res, rng, quick)
-    run_cards(res, rng, n_valid, n_bad)
-    run_decks(res, rng, 70 if quick else 700)
+    cover = c10_cover.Coverage()
+    with cover:
+        run_split(res, rng, quick)
+        run_cards(res, rng, n_valid, n_bad)
+        run_decks(res, rng, 70 if quick else 2000)
+    total, missing, stale = cover.report()
+    res.obligation(f'coverage: every executable line ({total}) of the '
+                   f'{cover.n_functions} modelled functions is executed by a '
+                   f'tied case, except {len(c10_cover.UNREACHED)} listed with '
+                   'a reason', not missing and not stale,
+                   f'missing={missing[:6]} stale={stale}')
+    res.extra['coverage_missing'] = [list(m) for m in missing]
+    if missing or stale:
+        res.violation('correspondence',
+                      f'lines of modelled functions not executed by any tied '
+                      f'case: {missing[:6]}; stale exemptions: {stale}',
+                      {'input': {'coverage': [list(m) for m in missing]},
+                       'theorem_or_correspondence': 'coverage'},
+                      found_input=False)
 
 
 def run_symbols(res):
@@ -911,10 +944,11 @@ def run_symbols(res):
                       {'input': {'len': n_enum}}, found_input=True)
 
 
-def gen_content(rng):
-    '''One-line content of a data card, of many shapes.'''
+def gen_content(rng, small=False):
+    '''One-line content of a data card, of many shapes (small: numbers 0..3,
+    so that blocks repeat material numbers).'''
     kind = rng.random()
-    n = rng.randint(0, 130)
+    n = rng.randint(0, 3) if small else rng.randint(0, 130)
     if kind < 0.35:
         head = rng.choice(['m', 'M']) + rng.choice(['', '0', '00']) + str(n)
         toks = tokens_of(gen_card(rng, valid=True)[0])[:8]
@@ -935,7 +969,7 @@ def gen_content(rng):
 
 
 def run_split(res, rng, quick):
-    contents = [gen_content(rng) for _ in range(400 if quick else 3000)]
+    contents = [gen_content(rng) for _ in range(400 if quick else 6000)]
     cases, meta = [], []
     for content in contents:
         if not ascii_ok(content.replace('\t', ' ')):
@@ -965,8 +999,9 @@ def run_split(res, rng, quick):
                       found_input=False)
     # whole data blocks
     cases, meta = [], []
-    for _ in range(120 if quick else 1200):
-        block = [gen_content(rng).replace('\t', ' ')
+    for _ in range(120 if quick else 2500):
+        small = rng.random() < 0.5
+        block = [gen_content(rng, small).replace('\t', ' ')
                  for _ in range(rng.randint(0, 6))]
         if rng.random() < 0.7:
             block = [c for c in block if impl_split(c) is not None
@@ -995,6 +1030,11 @@ def run_split(res, rng, quick):
         res.seen(('block', block), nontrivial=len(block) >= 2)
         res.count('materials:' + (out[1] if out[0] == 'err' else
                                   f'{min(len(out[1]), 4)}'))
+        heads = [m.group(1) for m in
+                 (re.match(r'\s*[mM]0*([0-9]+)(?![0-9*])', c) for c in block)
+                 if m]
+        if len(set(heads)) < len(heads):
+            res.count('materials:repeated-number')
     bad, errs = common.run_case_files(
         'c10_mats', HEADER, 'list string * res (list (N * list string))',
         'check_materials', cases)
@@ -1069,6 +1109,43 @@ def run_cards(res, rng, n_valid, n_bad):
                       found_input=False)
 
 
+def corner(cells, data):
+    return ('C10 corner deck\n' + '\n'.join(cells) + '\n\n1 so 1\n2 so 2\n3 so 3\n\n'
+            + '\n'.join(data) + '\n')
+
+
+# hand-written decks for the error branches and odd cards (tie:text only)
+CORNER_DECKS = [
+    # all fractions zero at an atom density: ZeroDivisionError
+    corner(['1 5 0.1 -1 imp:n=1', '2 0 1 imp:n=0'], ['m5 1001 0 8016 0.0']),
+    # ... harmless at a mass density
+    corner(['1 5 -1.0 -1 imp:n=1', '2 0 1 imp:n=0'], ['m5 1001 0 8016 0.0']),
+    # a fraction that is not a number: ValueError only on the atom-density path
+    corner(['1 5 0.1 -1 imp:n=1', '2 0 1 imp:n=0'], ['m5 1001 abc 8016 1']),
+    corner(['1 5 -1.0 -1 imp:n=1', '2 0 1 imp:n=0'], ['m5 1001 abc 8016 1']),
+    # an m0 card and a live void cell: TypeError
+    corner(['1 0 -1 imp:n=1', '2 0 1 imp:n=0'], ['m0 1001 1']),
+    # the same number twice: place of the first card, entries of the last
+    corner(['1 5 -1.0 -1 imp:n=1', '2 7 -2.0 1 -2 imp:n=1', '3 0 2 imp:n=0'],
+           ['m5 1001 1', 'm7 8016 1', 'M05 26000 2 26056 1']),
+    # a card without nuclide, a card with keywords only
+    corner(['1 5 -1.0 -1 imp:n=1', '2 6 0.1 1 -2 imp:n=1', '3 0 2 imp:n=0'],
+           ['m5', 'm6 nlib=70c gas=1']),
+    # Python's int() on ZAIDs
+    corner(['1 5 -1.0 -1 imp:n=1', '2 0 1 imp:n=0'], ['m5 +92235 1 9_2235 2 1-35 3']),
+    corner(['1 5 -1.0 -1 imp:n=1', '2 0 1 imp:n=0'], ['m5 -92235 1']),
+    # m alone, a star, a letter glued to the number
+    corner(['1 5 -1.0 -1 imp:n=1', '2 0 1 imp:n=0'], ['m5 1001 1', 'm']),
+    corner(['1 5 -1.0 -1 imp:n=1', '2 0 1 imp:n=0'], ['m5 1001 1', 'm5* 8016 1', '*m5 8016 1']),
+    corner(['1 5 -1.0 -1 imp:n=1', '2 0 1 imp:n=0'], ['m5 1001 1', 'm5x 1']),
+    # negative zero density, density spelled with a plus sign
+    corner(['1 5 -0.0 -1 imp:n=1', '2 5 +1.0 1 -2 imp:n=1', '3 0 2 imp:n=0'], ['m5 1001 1 8016 2']),
+    # one fraction positive zero with negative ones: '-0' counts as negative
+    corner(['1 5 -1.0 -1 imp:n=1', '2 0 1 imp:n=0'], ['m5 1001 -0 8016 -1']),
+    corner(['1 5 -1.0 -1 imp:n=1', '2 0 1 imp:n=0'], ['m5 1001 0 8016 -1']),
+]
+
+
 def conv_error_class(conv):
     if conv.exc == 'ValueError' and 'same sign' in conv.msg:
         return 'EMixedSigns'
@@ -1078,6 +1155,24 @@ def conv_error_class(conv):
 def run_decks(res, rng, n_decks):
     text_cases, text_meta = [], []
     n_known = {}
+    for text in CORNER_DECKS:
+        conv, cap = convert_capture(text)
+        res.seen(text)
+        res.count('deck:corner:' + (conv.exc or 'ok'))
+        if 'cells' not in cap:
+            res.violation('correspondence', 'corner deck did not reach '
+                          f'writeT4Composition: {conv}',
+                          {'input': {'deck': text},
+                           'theorem_or_correspondence': 'tie:text'},
+                          found_input=False)
+            continue
+        section = composition_section(conv.text or '') if conv.ok else None
+        expected = ('ok', section[:-1].split('\n')) if conv.ok \
+            else ('err', conv_error_class(conv))
+        case = coq_text_case(cap['cards'], cap['cells'], expected, section)
+        if case is not None:
+            text_cases.append(case)
+            text_meta.append((text, expected))
     for i in range(n_decks):
         deck = gen_deck(rng)
         broken = None
